@@ -423,4 +423,21 @@ theorem nextDeadline_after_poll (w : Wheel) (now : Int) (d : Int)
   have := (popExpired_spec w now w.heap.length).2.2.2 (Nat.le_refl _) e he
   omega
 
+/-- a re-arming under the same counter (`TimeoutAction::ToInstant`) puts the next deadline at or before the new deadline
+    and never later than it was -/
+theorem nextDeadline_insertReuse_le (w : Wheel) (c : Nat) (d : Int) (t : Verif.Token.Tok) :
+    ∃ d', nextDeadline (insertReuse w c d t) = some d' ∧ d' ≤ d ∧ ∀ d0, nextDeadline w = some d0 → d' ≤ d0 := by
+  cases hn : nextDeadline (insertReuse w c d t) with
+  | none =>
+    have := (nextDeadline_none_iff _).mp hn
+    simp [insertReuse] at this
+  | some d' =>
+    obtain ⟨_, hmin⟩ := nextDeadline_spec _ _ hn
+    refine ⟨d', rfl, ?_, ?_⟩
+    · exact hmin ⟨d, t, c⟩ (by simp [insertReuse])
+    · intro d0 h0
+      obtain ⟨⟨e, he, hed⟩, _⟩ := nextDeadline_spec _ _ h0
+      have := hmin e (by simp [insertReuse, he])
+      omega
+
 end Verif.Inv.Wheel
